@@ -283,6 +283,36 @@ def attitude_days(case):
     return {"ok": not fails, "failures": fails, "outcome": "ok" if not fails else "mismatch", "nontrivial": True, "n": len(ATT_SEQS)}
 
 
+def attitude_ms(case):
+    """130 attitude points of one day, each with its own millisecond of day: the last 65 milliseconds of the day and 65 spread
+    odd values - a float detour (seconds as float64, times 1e9) is off by a few ns for some of them on the later days of a year"""
+    fy, day = case["year"], case["day"]
+    ms = [86_399_999 - j for j in range(65)] + [((j + 1) * 1_329_257) % 86_400_000 | 1 for j in range(65)]
+    spec = treecheck.spec_from_case({"spec": {"level": "1.5", "images": [["HH", None, 1, 1]], "leader": {"n_att": len(ms), "n_chan": 1}}})
+    spec = synth.with_dev(spec, "led", "platform_position", "datetime_of_first_point.date", f"{fy:04d}  01  02".encode())
+    spec = synth.with_dev(spec, "led", "platform_position", "datetime_of_first_point.seconds_of_day", "12.5")
+    for k, m in enumerate(ms):
+        spec = synth.with_dev(spec, "led", f"attitude_point[{k}]", "time.day_of_year", day)
+        spec = synth.with_dev(spec, "led", f"attitude_point[{k}]", "time.millisecond_of_day", m)
+    files, _ = synth.build(spec)
+    fails = []
+    with harness.Product(files, "mcfs") as prod:
+        try:
+            tree = prod.open()
+            got = {g: [int(v) for v in np.asarray(tree[f"metadata/attitude/{g}"]["time"].values).astype("datetime64[ns]").astype("int64")] for g in ("attitude", "rates")}
+        except Exception as e:
+            return {"ok": False, "failures": [{"sig": {"kind": "attitude-ms-raises", "exc": type(e).__name__}, "detail": f"{fy} day {day}: {type(e).__name__}: {str(e)[:100]}", "case": {**case, "fn": "attitude_ms"}}], "outcome": "raises", "nontrivial": True, "n": 1}
+    for g, vals in got.items():
+        for k, m in enumerate(ms):
+            want = ns_of(dt.datetime(fy, 1, 1) + dt.timedelta(days=day - 1, milliseconds=m))
+            if k >= len(vals) or vals[k] != want:
+                delta = (vals[k] - want) if k < len(vals) else None
+                sig = {"leaf": "/metadata/attitude/*:time[*]", "delta_ns": delta}
+                if core.jkey(sig) not in {core.jkey(f["sig"]) for f in fails}:
+                    fails.append({"sig": sig, "detail": f"{fy} day {day}: attitude point {k} of {g} (millisecond {m}) is off by {delta} ns", "case": {**case, "fn": "attitude_ms"}})
+    return {"ok": not fails, "failures": fails, "outcome": "ok" if not fails else "mismatch", "nontrivial": True, "n": 1}
+
+
 def tz_sweep(case):
     """the same instants under local time zones with daylight saving (nothing in the files is local time)"""
     import datetime as _dt
@@ -357,7 +387,7 @@ def execute(case):
 def run(res, tier, seed):
     res.rule = (
         "instants = (every day [thorough] | days 1,2,59,60,61,365,366 [quick]) of every year 2014..2049 x times 00:00:00.000,"
-        " 12:34:56.789, 23:59:59.999 (+0/1/999 us for the us-of-day stamp; on days 1, 60, 366 also -1 / -500 / -700 us: the millisecond stamp ahead of the microsecond counter) x levels 1.5 and 1.1; each instant is written into all"
+        " 12:34:56.789, 23:59:59.999 (130 attitude points with distinct milliseconds on each of 9 days of the year, exact to the nanosecond; +0/1/999 us for the us-of-day stamp; on days 1, 60, 366 also -1 / -500 / -700 us: the millisecond stamp ahead of the microsecond counter) x levels 1.5 and 1.1; each instant is written into all"
         " time fields of one product at once; every time leaf is compared with the instant (and the whole tree with the"
         " reference model); plus 16 times of day at every order of magnitude of the ms/us counters (1 ms .. 86 399 998 ms) on 4 days; plus 12 instants whose compact text looks like a leap second / boundary at another alignment; plus 9 sequences of attitude days (over the end of the year, backwards, repeated) under common and leap reference years; plus each time-bearing field alone holding an instant of the neighbouring year; plus 5 instants on 4 days read back through the index cache; plus hours 0-3 of eight daylight-saving switch-over days under four local time zones; plus 12 decimal-second texts of the" " platform-position first point up to 86399.9999996 s on 4 dates (1 us tolerance) and on 96 dates written blank-padded ('2016   1  16'); plus images of 1025/1100/2049 lines (all per-line leaves compared) so that bulk code paths above the default"
         " 1024-line chunk are exercised. A case is a batch of 6 days; all distinct, all non-trivial."
@@ -375,6 +405,9 @@ def run(res, tier, seed):
         n += out["n"]
     for idx, case, out in core.pool_map(__name__, "attitude_days", [{"year": y} for y in (2019, 2020, 2049)], chunksize=1):
         res.record({**case, "fn": "attitude_days"}, out, order=8 * 10**6 + idx)
+        n += out["n"]
+    for idx, case, out in core.pool_map(__name__, "attitude_ms", [{"year": y, "day": d} for y, d in ((2019, 1), (2019, 48), (2019, 49), (2019, 100), (2019, 200), (2019, 300), (2019, 365), (2020, 366), (2049, 250))], chunksize=1):
+        res.record({**case, "fn": "attitude_ms"}, out, order=85 * 10**5 + idx)
         n += out["n"]
     for idx, case, out in core.pool_map(__name__, "independent", [{}], chunksize=1):
         res.record({"fn": "independent"}, out, order=5 * 10**6 + idx)
